@@ -175,7 +175,7 @@ static void step_begin(void) { w_obs_clear(); X.ncalls = 0; X.nshort = 0; X.lost
 static void step_end(void)
 {
     X.err = CONodeGetErr(&Node);                      /* the application polls (and thereby clears) the node error */
-    if (OBS.fatal) FAIL("fatal-error callback invoked", "CONodeFatalError during a parameter request");
+    if (OBS.fatal) FAIL("safety:fatal-error callback invoked", "CONodeFatalError during a parameter request");
     if (X.lost) FAIL("para-nvm-calls", "more than %d NVM driver calls in one step", MAXCALL);
     out_add((uint64_t)OBS.ntx * 4096 + (uint64_t)OBS.ncb * 256 + (uint64_t)X.ncalls * 8 + (uint64_t)X.nshort * 2 + (X.err != CO_ERR_NONE));
 }
